@@ -278,6 +278,15 @@ def run(run, tier):
         props['log'] = (props.get('log') or '') + ' | ' + xr['log'][-400:]
         run.violation('C12/proof/C12rec', 'Props/C12rec.v no longer checks: %s' % xr['log'][-400:],
                       {'broken': 'coq/Props/C12rec.v', 'log': xr['log']}, no_input=True)
+    # basic_discrete_SIS under table rules = the pure SIS generation sequence: Props/C12sis.v joins the obligations
+    xs = C.check_props('C12sis')
+    props['theorems'] = list(props['theorems']) + list(xs['theorems'])
+    props['axioms'] = dict(props['axioms'], **xs['axioms'])
+    if not xs['ok']:
+        props['ok'] = False
+        props['log'] = (props.get('log') or '') + ' | ' + xs['log'][-400:]
+        run.violation('C12/proof/C12sis', 'Props/C12sis.v no longer checks: %s' % xs['log'][-400:],
+                      {'broken': 'coq/Props/C12sis.v', 'log': xs['log']}, no_input=True)
     ok, log = C.build_driver('disc')
     if not ok:
         run.violation('C12/build', 'extracted model does not build: ' + log[-500:], {'log': log[-3000:]}, no_input=True)
